@@ -58,7 +58,7 @@ def _ov(extra):
     return d
 
 
-_KF = {1: "C19-F1", 2: "C19-F2", 3: "C19-F3", 4: "C19-F4", 5: "C19-F5", 6: "C19-F6", 7: "C19-F7", 8: "C19-F8", 9: "C19-F9", 10: "C19-F10", 11: "C19-F11"}
+_KF = {1: "C19-F1", 2: "C19-F2", 3: "C19-F3", 4: "C19-F4", 5: "C19-F5", 6: "C19-F6", 7: "C19-F7", 8: "C19-F8", 9: "C19-F9", 10: "C19-F10", 11: "C19-F11", 12: "C19-F12", 13: "C19-F13"}
 _KS = _ov({"internal/zzverif/c19gen/ks_test.go": "c19/gen/ks_test.go", "internal/zzverif/c19gen/req_test.go": "c19/gen/req_test.go",
            "internal/zzverif/c19gen/remote_test.go": "c19/gen/remote_test.go",
            "internal/zzverif/c19gen/watch_test.go": "c19/gen/watch_test.go",
@@ -109,6 +109,11 @@ P = {
         "overlay": _ov({"internal/watcher/zz_verif_c19_test.go": "c19/watchloop_test.go"}),
         "eval_module": "Run.Eval_C19", "check_term": "check_wloop " + _FX,
         "n_quick": 3, "n_thorough": 3, "findings": _KF, "env": _ENV,
+    }, {
+        "name": "k8s", "pkg": "./internal/rules/provider/kubernetes", "test": "TestVerifC19K8s",
+        "overlay": _ov({"internal/rules/provider/kubernetes/zz_verif_c19_test.go": "c19/k8s_test.go"}),
+        "eval_module": "Run.Eval_C19", "check_term": "check_k8s " + _FX,
+        "n_quick": 60, "n_thorough": 2000, "findings": _KF, "env": _ENV,
     }, {
         "name": "rules", "pkg": "./internal/rules", "test": "TestVerifC19Rules",
         "overlay": _ov({"internal/rules/zz_verif_c19_test.go": "c19/rules_test.go"}),
